@@ -94,7 +94,7 @@ theorem parse_close_of_realResult (t : List Nat) (neg : Bool) (v n X : Nat) (FLA
   refine ⟨neg, num, den, hrd, by rw [hden]; exact Nat.mul_pos hDpos hc, ?_⟩
   obtain ⟨r, hres, hoff, hcase⟩ := realResult_class_all neg v n X FLAG t.length hv0 hv hlo hhi hn1 hn19 hX
   rw [← hstr] at hres
-  rcases hcase with ⟨_, hout⟩ | ⟨hkind, hsign, hclose⟩
+  rcases hcase with ⟨_, hout⟩ | ⟨hkind, hsign, hclose, _⟩
   · right
     cases FLAG with
     | true =>
